@@ -59,6 +59,10 @@ type setvarFn struct {
 	value      macro.Macro
 	collection variables.RuleVariable
 	isRemove   bool
+	// isRelative is set when the value is written with a leading + or -: only then is it an
+	// increment / decrement. An assigned value that merely expands to a negative number
+	// (setvar:tx.a=%{tx.b} with tx.b = -3) is assigned, not subtracted.
+	isRelative bool
 }
 
 func (a *setvarFn) Init(_ plugintypes.RuleMetadata, data string) error {
@@ -104,6 +108,7 @@ func (a *setvarFn) Init(_ plugintypes.RuleMetadata, data string) error {
 			return err
 		}
 		a.value = macro
+		a.isRelative = len(val) > 0 && (val[0] == '+' || val[0] == '-')
 	}
 	return nil
 }
@@ -154,7 +159,7 @@ func (a *setvarFn) evaluateTxCollection(r plugintypes.RuleMetadata, tx plugintyp
 		// if nothing to input
 		col.Set(key, []string{""})
 	// Check if this could be an arithemetic operation. If it is followed by a number, it will be treated as an arithmetic operation. Otherwise, it will be treated as a string.
-	case value[0] == '+', value[0] == '-':
+	case a.isRelative && (value[0] == '+' || value[0] == '-'):
 		val := 0
 		if len(value) > 1 {
 			val, err = strconv.Atoi(value[1:])
